@@ -164,7 +164,7 @@ func (mq *MessageQueue) runQueue() {
 		select {
 		case <-mq.outgoingWork:
 			if verifhook.Enabled {
-				verifhook.Yield("messagequeue.beforeSendMessage", string(mq.p))
+				verifhook.Yield("messagequeue.beforeSendMessage", string(mq.p), mq.network)
 			}
 			mq.sendMessage()
 		case <-mq.done:
